@@ -108,10 +108,10 @@ def lookup(W, p):
         W.assume(W.lt(z[k], z[k + 1]), "column sorted")
     other = [W.real(f"o{k}", -5000, 0) for k in range(N)]
     zp = W.real("Z", -100, 6000)
-    # 2x2 field of columns: the particle sits in cell (1, 0); the other columns must not matter
-    col = lambda j, i: z if (j, i) == (0, 1) else other  # noqa: E731
-    z_rho = W.arr_nd([[[col(j, i)[k] for i in range(2)] for j in range(2)] for k in range(N)], "f")
-    x = W.real("x", W.frac(1, 2), W.frac(3, 2), lo_strict=True, hi_strict=True)
+    # non-square 2 x 3 field of columns: the particle sits in cell (j=0, i=2); the other columns must not matter
+    col = lambda j, i: z if (j, i) == (0, 2) else other  # noqa: E731
+    z_rho = W.arr_nd([[[col(j, i)[k] for i in range(3)] for j in range(2)] for k in range(N)], "f")
+    x = W.real("x", W.frac(3, 2), W.frac(5, 2), lo_strict=True, hi_strict=True)
     y = W.real("y", -W.frac(1, 2), W.frac(1, 2), lo_strict=True, hi_strict=True)
     K, A = roms.z2s(z_rho, W.arr([x], "f"), W.arr([y], "f"), W.arr([zp], "f"))
     K, A = W.tolist(K)[0], W.tolist(A)[0]
